@@ -8,7 +8,8 @@ translated body is the model's function, so the tie is by meaning: a rewrite tha
 Also translated (round 7c): the interfaces' own `enable()` / `disable()` (WiredNetworkInterface, IPWiredNetworkInterface,
 WirelessNetworkInterface, IPWirelessNetworkInterface) into `IStmt`, WITH local variables and `super()`.
 
-Strict: anything outside the fragment (in a node method a local variable, an unknown call, an unknown attribute, a loop with more than
+Node methods may use local variables that hold a truth value (see `_seq`).
+Strict: anything outside the fragment (in a node method an unknown call, an unknown attribute, a loop with more than
 one statement, an argument to a power call) raises Unsupported, which breaks the tie visibly.
 """
 import ast
@@ -103,6 +104,8 @@ def bexpr(e: ast.AST) -> str:
     if isinstance(e, ast.Constant) and isinstance(e.value, bool):
         return f"(.lit {'true' if e.value else 'false'})"
     s = _u(e)
+    if isinstance(e, ast.Name) and e.id in _LOCALS:
+        return f"(.lit {'true' if _LOCALS[e.id] else 'false'})"
     if s == RESETTING:
         return ".resetting"
     if s == STATE:
@@ -194,10 +197,14 @@ def _helper_body(e: ast.AST):
     if any(isinstance(d, ast.Name) and d.id == "property" for d in fn.decorator_list):
         raise Unsupported(f"`{name}` is a property")
     _INLINING.append(name)
+    saved = dict(_LOCALS)
+    _LOCALS.clear()          # a helper has its own scope
     try:
         return stmts(fn.body, name)
     finally:
         _INLINING.pop()
+        _LOCALS.clear()
+        _LOCALS.update(saved)
 
 
 def _loop(st: ast.For) -> str:
@@ -312,13 +319,53 @@ def stmt(st: ast.stmt, where: str) -> str:
     raise Unsupported(f"{where}: statement `{_u(st)[:80]}`")
 
 
+# local variables of a node method (round 7c). A local holds the TRUTH VALUE of what was assigned to it (the answer of
+# `self.power_on()` / `self.power_off()`, of a helper, of `all(…)` / `any(…)` over the interfaces, or a condition evaluated at that
+# point); the translation branches on that value where it is assigned and translates the REST OF THE BLOCK once per value, with the
+# local replaced by the literal (continuation duplication: no environment is needed in the interpreter, and the order of
+# evaluation is the source's). A use outside the block of the assignment, or as anything but a truth value (an int), is refused.
+_LOCALS: dict = {}
+
+
+def _with_local(x: str, v: bool, real: List[ast.stmt], where: str) -> str:
+    missing = object()
+    old = _LOCALS.get(x, missing)
+    _LOCALS[x] = v
+    try:
+        return _seq(real, where)
+    finally:
+        if old is missing:
+            del _LOCALS[x]
+        else:
+            _LOCALS[x] = old
+
+
+def _seq(real: List[ast.stmt], where: str) -> str:
+    if not real:
+        return ".skip"
+    st = real[0]
+    if isinstance(st, ast.Assign) and len(st.targets) == 1 and isinstance(st.targets[0], ast.Name):
+        x = st.targets[0].id
+        # the test is evaluated (its calls are made) BEFORE the local changes: translate it first, under the old binding
+        k = _power_call(st.value)
+        q = None if k else _nics_quant(st.value)
+        h = None if (k or q) else _helper_body(st.value)
+        c = None if (k or q or h is not None) else bexpr(st.value)
+        a, b = _with_local(x, True, real[1:], where), _with_local(x, False, real[1:], where)
+        if k:
+            return f"(.ifCall .{k} {a} {b})"
+        if q:
+            return f"(.ifNicsQ .{q[0]} {'true' if q[1] else 'false'} .{q[2]} {a} {b})"
+        if h is not None:
+            return f"(.ifBlock {h} {a} {b})"
+        return f"(.ite {c} {a} {b})"
+    s = stmt(st, where)
+    r = _seq(real[1:], where)
+    return s if r == ".skip" else f"(.seq {s} {r})"
+
+
 def stmts(body: List[ast.stmt], where: str) -> str:
-    out = ".skip"
-    real = [s for s in body if not _is_noise(s)]
-    for st in reversed(real):
-        s = stmt(st, where)
-        out = s if out == ".skip" else f"(.seq {s} {out})"
-    return out
+    return _seq([s for s in body if not _is_noise(s)], where)
 
 
 POWER_WORDS = ("start_up_countdown", "shut_down_countdown", "start_up_duration", "shut_down_duration", "is_resetting",
